@@ -36,7 +36,7 @@ SQRT_EPS = np.sqrt(EPS)
 # generation
 # ---------------------------------------------------------------------------------------------------------
 def gen_paths(rng, tier):
-    npath = 400 if tier == 'quick' else 4000
+    npath = 400 if tier == 'quick' else 3000
     paths = []
     for i in range(npath):
         paths.append(dict(
@@ -208,6 +208,16 @@ def _closed_form(B, A, wv, y):
     return beta, float(sv.max() / max(sv.min(), 1e-300))
 
 
+def _edof_qr(B, A, wv):
+    """trace of the hat matrix = squared Frobenius norm of the data block of the orthogonal factor of [sqrt(W)B; E]
+    (thin QR; independent of pyGAM's QR + SVD route)"""
+    lamA, V = np.linalg.eigh((A + A.T) / 2)
+    E = (np.sqrt(np.clip(lamA, 0, None))[:, None]) * V.T
+    M = np.vstack([np.sqrt(wv)[:, None] * B, E])
+    Q, _ = np.linalg.qr(M)
+    return float(np.sum(Q[:B.shape[0]] ** 2))
+
+
 def _null_fit(B, R, Pv, wv, y):
     """argmin of RSS + b'Rb over the null space of Pv (NumPy only); also the smallest non-zero eigenvalue of Pv"""
     lamP, V = np.linalg.eigh((Pv + Pv.T) / 2)
@@ -290,11 +300,12 @@ def _worker_(case):
         grad = B.T @ (wv * (y - mu)) - A @ beta
         rhs = B.T @ (wv * y)
         acc = _acc(condM, float(np.linalg.norm(A, 2)), float(np.linalg.norm(beta)), float(np.abs(mu[wv > 0]).max()))
-        pts.append(dict(lam=lam, conv=f['conv'], fallback=f['fallback'], acc=acc, edof=f['edof'], rss=rss, J=J, Rq=Rq, cond=cond, condM=condM,
+        pts.append(dict(lam=lam, conv=f['conv'], fallback=f['fallback'], acc=acc, edof=f['edof'], edof_np=_edof_qr(B, A, wv), rss=rss, J=J, Rq=Rq, cond=cond, condM=condM,
                         d_cf=float(np.abs(mu - mucf)[pos].max() / sc), d_lin=float(np.abs(f['P'] - (Pfix + lam * Pv)).max() / (1e-300 + np.abs(f['P']).max() + np.abs(Pfix).max())),
                         d_B=float(np.abs(B - B0).max()), d_mu=float(np.abs(B @ beta - mu).max() / sc),
                         be=float(np.linalg.norm(grad) / (np.linalg.norm(N, 2) * np.linalg.norm(beta) + np.linalg.norm(rhs) + 1e-300)),
-                        bnorm2=float(beta @ beta), coef=beta, mu=mu, muq=f['muq'], A=A))
+                        bnorm2=float(beta @ beta), coef=beta, mu=mu, muq=f['muq'], A=A,
+                        nscale=float(np.linalg.norm(N, 2) * np.linalg.norm(beta) + np.linalg.norm(rhs))))
     res = dict(case=case, status='ok', desc=prob['desc'], varied=prob['varied'], n=n, m=m, pts=pts,
                other_pen=float(np.abs(Pfix).max()), pv_zero=bool(np.abs(Pv).max() == 0), pv_norm=float(np.linalg.norm(Pv, 2)), ynorm=float(np.sqrt(np.sum(wv * y * y))))
     # ---- the limit.  lam_big = the largest of 1e10 … 1e3 at which (i) the problem is still well enough conditioned for a
@@ -419,7 +430,7 @@ def run(ctx):
     st_quad, st_neq = 'model.quad', 'model.neq'
     ctx.stream(st_mono, 'real fits along increasing lam (0, 1e-6…1e6; each penalty separately and jointly): edof non-increasing, RSS + fixed penalties non-decreasing, penalty value non-increasing (tolerance from the accuracy model of the solve; pairs above 1e-3 not judged)')
     ctx.stream(st_lit, 'the sentence as stated: weighted RSS non-decreasing — judged exactly where the theorem gives it (nothing else penalised but the sqrt(eps) ridge: slack = gain of the ridge term); with other penalties fixed it is false in general (counted, see rss_not_monotone_in_general)')
-    ctx.stream(st_cf, 'fitted values at every lam (incl. lam = 0) == NumPy lstsq on the augmented system [sqrt(W)B; E]')
+    ctx.stream(st_cf, 'fitted values at every lam (incl. lam = 0) == NumPy lstsq on the augmented system [sqrt(W)B; E]; edof == trace of the hat matrix (thin QR)')
     ctx.stream(st_lim, 'at the largest well-conditioned lam (1e3…1e10): squeeze inequalities against the NumPy null-space WLS fit; where that lam is in the limit regime fitted values == null-space fit (np.polyfit straight line for the default spline term)')
     ctx.stream(st_lin, 'build_penalties() is fixed part + lam x varied part along the path; model matrix independent of lam')
     ctx.stream(st_quad, 'Lean Penalty/Terms model: beta\'P beta of the varied penalty at the real coefficients == NumPy on the real build_penalties (1e-9)')
@@ -502,6 +513,15 @@ def run(ctx):
             ctx.fail(st_cf, dict(kind='closed-form', cls=case['cls'], lam0=(worst_cf['lam'] == 0)), dict(path=case, lam=worst_cf['lam'], n=r['n'], m=r['m'], varied=r['varied']),
                      observed='fitted values differ from the penalised weighted least-squares solution by %.3g (relative) at lam = %.3g' % (worst_cf['d_cf'], worst_cf['lam']),
                      expected='fitted values of the penalised WLS problem (lam = 0: unpenalised WLS on the basis plus the sqrt(eps) ridge)', oracle='np.linalg.lstsq on [sqrt(W)B; E], E\'E = S + P')
+        if jp:
+            worst_e = max(jp, key=lambda p: abs(p['edof'] - p['edof_np']) / (1 + abs(p['edof_np'])) / max(1e-7, p['acc']))
+            de = abs(worst_e['edof'] - worst_e['edof_np']) / (1 + abs(worst_e['edof_np']))
+            te = 10 * max(1e-7, worst_e['acc'])
+            ctx.count('edof vs trace of the hat matrix: log10(diff / tol)', _lb(de / te))
+            if de > te:
+                ctx.fail(st_cf, dict(kind='edof-formula', cls=case['cls']), dict(path=case, lam=worst_e['lam'], n=r['n'], m=r['m'], varied=r['varied']),
+                         observed='statistics_[edof] = %.12g but the trace of the hat matrix is %.12g at lam = %.3g' % (worst_e['edof'], worst_e['edof_np'], worst_e['lam']),
+                         expected='edof = tr((B\'WB + S + P)^-1 B\'WB)', oracle='thin QR of [sqrt(W)B; E] in NumPy')
         dlin = max(p['d_lin'] for p in pts)
         dB = max(p['d_B'] for p in pts)
         if dlin > 1e-12 or dB > 0:
@@ -570,7 +590,7 @@ def run(ctx):
                 t = 10 * p['acc']
                 if abs(rssm - p['rss']) > max(1e-9, t) * sF:
                     ctx.disagree(st_neq, sig, p['rss'], rssm, 'weighted RSS: predict_mu vs model matrix times coef in the model')
-                elif resm > max(1e-6, 10 * EPS * p['cond']) * 10 * (rhsm + 1e-300) and p['be'] <= 1e-7:
+                elif resm > 1e-6 * (p['nscale'] + 1e-300) and p['be'] <= 1e-7 and not p['fallback']:     # normwise backward error, as in C01
                     ctx.disagree(st_neq, sig, dict(be_numpy=p['be']), dict(model_residual=resm, rhs=rhsm), 'model normal-equation residual at the real coefficients')
     ctx.partial.append('edof_antitone_partial / edof_diag_formula_partial: monotonicity of edof is proved from the representation sum a_j/(1+lam gamma_j), which assumes a simultaneous diagonalisation of G + R and P (standard linear algebra, not proved here)')
     ctx.partial.append('rss_monotone holds with nothing else penalised; with other penalties fixed only RSS + fixed penalties is monotone (rss_not_monotone_in_general is a machine-checked counter-example to the unrestricted sentence)')
